@@ -31,7 +31,11 @@ SPEC = {
                    "scheduler on a random schedule biased to switch at CAS points; after every model-visible step "
                    "the state word, pointer, current mapping, persisted total and closed mappings are compared "
                    "with the model run on the same schedule. distinct = distinct scenario+schedule+observation "
-                   "lines; all are non-trivial (>= 2 threads)"),
+                   "lines; all are non-trivial (>= 2 threads). Scenario mix: a rotation and one or two lookups of other (large) counters, "
+                   "of which the first one in a tight file extends it. Every 8th case is an ORACLE-ONLY scenario outside the "
+                   "single-counter model (kind multi: 2-4 real counters with pending values and the first open of an existing counter "
+                   "file whose first page is full, so that a changer's own refresh-lookup extends the file): no lock-step comparison, "
+                   "only 'every call returns, no panic, every counter's persisted value = its increments, nothing pending'"),
         Suite(name="reg", harness="vh_reg", runner="reg",
               model_deps=["theories/Model/Register.vo"],
               quick_n=300, thorough_n=5000, rewrite=rewrite_counter_imports, tags="verif,verifconc",
